@@ -287,6 +287,20 @@ impl Model {
                 Ok(())
             }
             Op::Write(s) => self.step_write(ctx, s, out, t0, t1),
+            Op::TwoWriters { a, b, b_first } => {
+                // temp files are private: two writers open at once are their commits in order
+                let (oa, ob) = match out {
+                    Out::Pair(x, y) => (&**x, &**y),
+                    o => return Err(format!("two writers: unexpected result {}", o.short())),
+                };
+                if *b_first {
+                    self.step_write(ctx, b, ob, t0, t1).map_err(|e| format!("two writers open at once, the one committing first: {e}"))?;
+                    self.step_write(ctx, a, oa, t0, t1).map_err(|e| format!("two writers open at once, the one committing second: {e}"))
+                } else {
+                    self.step_write(ctx, a, oa, t0, t1).map_err(|e| format!("two writers open at once, the one committing first: {e}"))?;
+                    self.step_write(ctx, b, ob, t0, t1).map_err(|e| format!("two writers open at once, the one committing second: {e}"))
+                }
+            }
             Op::LinkTo(l) => self.step_link(ctx, l, out, t0, t1),
             Op::Read { key } => {
                 let k = ctx.key(*key);
